@@ -147,6 +147,98 @@ fn byte_constants(ex: &mut Ex, s: &mut String) {
     emit_bytes(ex, s, "maskSalt", "`mask` salt (b\"commitment_mask\")", l.bytestrs.first().cloned(), None);
 }
 
+
+// ---------------------------------------------------------------------------------------------------------------
+// E2/E4 for the consensus codec: tag bytes of TxIn / TxOutTarget / SubField / RctType in both directions, and the sets of
+// RctType variants that the RingCT decoders and encoders branch on.
+struct OkVariant<'a> { enumname: &'a str, found: Option<String> }
+impl<'a, 'b> Visit<'b> for OkVariant<'a> {
+    fn visit_expr_call(&mut self, c: &'b ExprCall) {
+        if self.found.is_none() && toks(&c.func) == "Ok" { if let Some(a) = c.args.first() {
+            let p = match a { Expr::Struct(s) => Some(&s.path), Expr::Call(c2) => if let Expr::Path(p) = &*c2.func { Some(&p.path) } else { None }, Expr::Path(p) => Some(&p.path), _ => None };
+            if let Some(p) = p { let segs: Vec<String> = p.segments.iter().map(|s| s.ident.to_string()).collect();
+                if segs.len() >= 2 && segs[segs.len() - 2] == self.enumname { self.found = Some(segs[segs.len() - 1].clone()); } } } }
+        visit::visit_expr_call(self, c);
+    }
+}
+struct FirstTagEmit { found: Option<i128> }
+impl<'b> Visit<'b> for FirstTagEmit {
+    fn visit_expr_method_call(&mut self, m: &'b ExprMethodCall) {
+        visit::visit_expr_method_call(self, m); // innermost first
+        if self.found.is_none() && m.method == "consensus_encode" { if let Some(v) = eval(&m.receiver) { self.found = Some(v); } }
+    }
+}
+fn variant_of_pat(p: &Pat) -> Option<String> { match p { Pat::Reference(r) => variant_of_pat(&r.pat), other => pat_name(other) } }
+fn decode_table(ex: &mut Ex, it: &Items, ty: &str, item: &str) -> Vec<(i128, String)> {
+    let mut rows = vec![];
+    match it.fns.iter().find(|(t, r, n, _)| t == ty && n == "consensus_decode" && r.contains("Decodable")).map(|x| x.3).and_then(|f| last_match(&f.block)) {
+        Some(m) => for arm in &m.arms { let mut ints = vec![];
+            if pat_ints(&arm.pat, &mut ints) { let mut v = OkVariant { enumname: ty, found: None }; v.visit_expr(&arm.body);
+                match v.found { Some(name) => for i in ints { rows.push((i, name.clone())); }, None => { if !toks(&arm.body).contains("Err(") { ex.fail(item, &format!("arm `{}` neither Ok({}::..) nor Err", toks(&arm.pat), ty)); } } } }
+            else if !matches!(arm.pat, Pat::Wild(_)) || !toks(&arm.body).contains("Err") { ex.fail(item, &format!("arm `{}`", toks(&arm.pat))); } },
+        None => ex.fail(item, "decoder or its match not found"),
+    }
+    rows
+}
+fn encode_table(ex: &mut Ex, it: &Items, ty: &str, item: &str) -> Vec<(String, i128)> {
+    let mut rows = vec![];
+    match it.fns.iter().find(|(t, r, n, _)| t == ty && n == "consensus_encode" && r.contains("Encodable")).map(|x| x.3) {
+        Some(f) => { let mut fm = FirstMatch(None); fm.visit_block(&f.block);
+            match fm.0 { Some(m) => for arm in &m.arms { let mut t = FirstTagEmit { found: None }; t.visit_expr(&arm.body);
+                match (variant_of_pat(&arm.pat), t.found) { (Some(v), Some(b)) => rows.push((v, b)), _ => ex.fail(item, &format!("arm `{}`", toks(&arm.pat))) } },
+                None => ex.fail(item, "match not found") } }
+        None => ex.fail(item, "encoder not found"),
+    }
+    rows
+}
+/// all `match <scrutinee>` on an RctType inside a function, in source order: per match, per arm, the set of variants (a wildcard arm is `[]`)
+struct RctMatches { out: Vec<Vec<Vec<String>>>, eqs: Vec<String> }
+impl<'b> Visit<'b> for RctMatches {
+    fn visit_expr_match(&mut self, m: &'b ExprMatch) {
+        let sc = toks(&m.expr);
+        if sc == "rct_type" || sc == "self.rct_type" { self.out.push(m.arms.iter().map(|a| { let mut v = vec![]; pat_variants(&a.pat, &mut v); v }).collect()); }
+        visit::visit_expr_match(self, m);
+    }
+    fn visit_expr_binary(&mut self, b: &'b ExprBinary) {
+        if matches!(b.op, BinOp::Eq(_) | BinOp::Ne(_)) { let (l, r) = (toks(&b.left), toks(&b.right)); if (l == "rct_type" || l.ends_with(".rct_type")) && r.starts_with("RctType::") { self.eqs.push(r["RctType::".len()..].to_string()); } }
+        visit::visit_expr_binary(self, b);
+    }
+}
+const RCTS: [&str; 7] = ["Null", "Full", "Simple", "Bulletproof", "Bulletproof2", "Clsag", "BulletproofPlus"];
+fn lean_rct_sets(m: &[Vec<Vec<String>>]) -> String { format!("[{}]", m.iter().map(|mm| format!("[{}]", mm.iter().map(|arm| format!("[{}]", arm.iter().map(|v| format!(".{}", v)).collect::<Vec<_>>().join(", "))).collect::<Vec<_>>().join(", "))).collect::<Vec<_>>().join(", ")) }
+fn codec_tables(ex: &mut Ex, s: &mut String) {
+    let f = read("src/blockdata/transaction.rs"); let it = items(&f);
+    for (ty, lty, vars) in [("TxIn", "TxInV", &["Gen", "ToKey"][..]), ("TxOutTarget", "TargetV", &["ToKey", "ToTaggedKey"][..]), ("SubField", "SubFieldV", &["TxPublicKey", "Nonce", "Padding", "MergeMining", "AdditionalPublickKey", "MysteriousMinerGate"][..])] {
+        let d = decode_table(ex, &it, ty, &format!("codec.{}.decode", ty)); let e = encode_table(ex, &it, ty, &format!("codec.{}.encode", ty));
+        for (_, v) in d.iter() { if !vars.contains(&v.as_str()) { ex.fail(&format!("codec.{}.decode", ty), &format!("unknown variant {}", v)); } }
+        let dv: Vec<String> = d.iter().filter(|(_, v)| vars.contains(&v.as_str())).map(|(b, v)| format!("({}, .{})", b, v)).collect();
+        let ev: Vec<String> = e.iter().filter(|(v, _)| vars.contains(&v.as_str())).map(|(v, b)| format!("(.{}, {})", v, b)).collect();
+        let lname = ty[..1].to_lowercase() + &ty[1..];
+        writeln!(s, "/-- `{}::consensus_decode`: accepted tag byte ↦ variant (every other byte is an error) -/\ndef {}Decode : List (Nat × {}) := [{}]", ty, lname, lty, dv.join(", ")).unwrap();
+        writeln!(s, "/-- `{}::consensus_encode`: variant ↦ tag byte written -/\ndef {}Encode : List ({} × Nat) := [{}]", ty, lname, lty, ev.join(", ")).unwrap();
+    }
+    let f = read("src/util/ringct.rs"); let it = items(&f);
+    let d = decode_table(ex, &it, "RctType", "codec.RctType.decode"); let e = encode_table(ex, &it, "RctType", "codec.RctType.encode");
+    writeln!(s, "/-- `RctType::consensus_decode` -/\ndef rctTypeDecode : List (Nat × RctTy) := [{}]", d.iter().filter(|(_, v)| RCTS.contains(&v.as_str())).map(|(b, v)| format!("({}, .{})", b, v)).collect::<Vec<_>>().join(", ")).unwrap();
+    writeln!(s, "/-- `RctType::consensus_encode` -/\ndef rctTypeEncode : List (RctTy × Nat) := [{}]", e.iter().filter(|(v, _)| RCTS.contains(&v.as_str())).map(|(v, b)| format!("(.{}, {})", v, b)).collect::<Vec<_>>().join(", ")).unwrap();
+    // matches!(self, A | B | ..) predicates
+    for (name, lname) in [("is_rct_bp", "isRctBp"), ("is_rct_bp_plus", "isRctBpPlus")] {
+        let body = find_fn(&it, "RctType", "", name).map(|f| toks(&f.block)).unwrap_or_default();
+        let set: Vec<String> = if let Some(i) = body.find("matches!(self,") { body[i + 14..].trim_end_matches(|c| c == ')' || c == '}').split('|').map(|x| x.trim().rsplit("::").next().unwrap_or("").trim_end_matches(')').to_string()).collect() } else { vec![] };
+        if set.is_empty() || set.iter().any(|v| !RCTS.contains(&v.as_str())) { ex.fail(&format!("codec.RctType.{}", name), &format!("body is not `matches!(self, A | B ..)`: {}", body)); writeln!(s, "def {} : List RctTy := []", lname).unwrap(); }
+        else { writeln!(s, "/-- `RctType::{}` -/\ndef {} : List RctTy := [{}]", name, lname, set.iter().map(|v| format!(".{}", v)).collect::<Vec<_>>().join(", ")).unwrap(); }
+    }
+    // the variant sets the RingCT codecs branch on, in source order
+    for (ty, fname, lname) in [("EcdhInfo", "consensus_decode", "ecdhDecMatches"), ("RctSigBase", "consensus_decode", "baseDecMatches"), ("RctSigBase", "consensus_encode", "baseEncMatches"),
+                               ("RctSigPrunable", "consensus_decode", "prunDecMatches"), ("RctSigPrunable", "consensus_encode", "prunEncMatches")] {
+        let f = it.fns.iter().find(|(t, _, n, _)| t == ty && n == fname).map(|x| x.3);
+        let mut rm = RctMatches { out: vec![], eqs: vec![] }; if let Some(f) = f { rm.visit_block(&f.block); } else { ex.fail(&format!("codec.{}.{}", ty, fname), "function not found"); }
+        if rm.out.iter().flatten().flatten().any(|v| !RCTS.contains(&v.as_str())) { ex.fail(&format!("codec.{}.{}", ty, fname), "unknown RctType variant in a match"); }
+        writeln!(s, "/-- `{}::{}`: the `match rct_type` expressions in source order, each as the list of its arms' variant sets -/\ndef {} : List (List (List RctTy)) := {}", ty, fname, lname, lean_rct_sets(&rm.out)).unwrap();
+        writeln!(s, "/-- … and the variants compared with `==` / `!=`, in source order -/\ndef {}Eqs : List RctTy := [{}]", lname.replace("Matches", ""), rm.eqs.iter().map(|v| format!(".{}", v)).collect::<Vec<_>>().join(", ")).unwrap();
+    }
+}
+
 const NETS: [&str; 3] = ["Mainnet", "Testnet", "Stagenet"];
 const KINDS: [&str; 3] = ["Standard", "Integrated", "SubAddress"];
 const DENOMS: [&str; 5] = ["Monero", "Millinero", "Micronero", "Nanonero", "Piconero"];
@@ -336,6 +428,22 @@ impl<'a> Visit<'a> for Sites {
         }
     }
 }
+
+// E3: every `impl_consensus_encoding!(T, f1, ..)` invocation with the struct's declared fields (names and types)
+fn field_orders(outdir: &str) {
+    let mut all = vec![];
+    for f in ["src/blockdata/transaction.rs", "src/blockdata/block.rs", "src/util/ringct.rs", "src/cryptonote/subaddress.rs", "src/util/key.rs", "src/util/address.rs", "src/cryptonote/hash.rs"] {
+        let file = read(f); let it = items(&file);
+        for m in &it.macros { if m.mac.path.segments.last().map(|s| s.ident == "impl_consensus_encoding").unwrap_or(false) {
+            let toks: Vec<String> = m.mac.tokens.to_string().split(',').map(|x| x.trim().to_string()).filter(|x| !x.is_empty()).collect();
+            let ty = toks[0].clone();
+            let decl: Vec<String> = it.structs.iter().find(|s| s.ident == ty.as_str()).map(|s| s.fields.iter().map(|fl| format!("{}: {}", fl.ident.as_ref().map(|i| i.to_string()).unwrap_or_default(), self::toks(&fl.ty))).collect()).unwrap_or_default();
+            all.push(serde_json::json!({"file": f, "type": ty, "wire_order": toks[1..].to_vec(), "declared_fields": decl}));
+        } }
+    }
+    std::fs::write(format!("{}/field_orders.json", outdir), serde_json::to_string_pretty(&all).unwrap()).unwrap();
+}
+
 pub const PANIC_FILES: [&str; 13] = ["src/consensus/encode.rs", "src/consensus/endian.rs", "src/blockdata/transaction.rs", "src/blockdata/block.rs", "src/util/ringct.rs", "src/util/address.rs", "src/util/key.rs",
     "src/util/amount.rs", "src/cryptonote/hash.rs", "src/cryptonote/onetime_key.rs", "src/cryptonote/subaddress.rs", "src/network.rs", "src/internal_macros.rs"];
 fn panic_inventory(outdir: &str) {
@@ -368,6 +476,12 @@ pub fn run(outdir: &str) -> Vec<String> {
     address_tables(&mut ex, &mut s);
     writeln!(s, "end Gen").unwrap();
     std::fs::write(format!("{}/Tables.lean", outdir), s).unwrap();
+    // ---- Codec.lean (tag tables and RctType variant sets of the consensus codec)
+    let mut s = String::from("import MoneroModel.Types\n") + hdr;
+    writeln!(s, "namespace Gen").unwrap();
+    codec_tables(&mut ex, &mut s);
+    writeln!(s, "end Gen").unwrap();
+    std::fs::write(format!("{}/Codec.lean", outdir), s).unwrap();
     // ---- Amount.lean
     let mut s = String::from("import MoneroModel.Types\nimport MoneroModel.Model.StdInt\n") + hdr;
     writeln!(s, "namespace Gen").unwrap();
@@ -377,6 +491,7 @@ pub fn run(outdir: &str) -> Vec<String> {
     writeln!(s, "end Gen").unwrap();
     std::fs::write(format!("{}/Amount.lean", outdir), s).unwrap();
     panic_inventory(outdir);
+    field_orders(outdir);
     // ---- Sizes.lean: std::mem::size_of of the vector element types in THIS build of /repo
     {
         use monero::blockdata::transaction::{TxIn, TxOut};
